@@ -152,7 +152,7 @@ Lemma process_apks_refs_two perm fs nonce : (forall l, Permutation (perm l) l) -
      (2 <= List.length (targets (a_name a) e))%nat ->
      forall q, In q (pool ++ List.map (apk_package nonce) (l1 ++ [a]) ++ List.concat (List.map (pkgs_located_in fs) l1)) ->
        p_name q = a_name a -> ~ In (p_id q) (targets (a_name a) e)) ->
-  process_apks perm fs nonce apks d = Ok d' -> RefsResolve d'.
+  process_apks_u perm fs nonce apks d = Ok d' -> RefsResolve d'.
 Proof.
   intros P. induction apks as [|a apks IH]; intros pool d d' R L Inc T2 Fr H; simpl in H.
   - inversion H; subst; exact R.
@@ -184,7 +184,7 @@ Proof.
 Qed.
 
 Lemma generate_refs_embedded perm g d : (forall l, Permutation (perm l) l) ->
-  AtMostTwoTargets g -> TargetsFresh g -> generate perm g = Ok d -> RefsResolve d.
+  AtMostTwoTargets g -> TargetsFresh g -> generate_u perm g = Ok d -> RefsResolve d.
 Proof.
   intros P T2 Fr H. apply generate_inv in H. destruct H as (L & d0 & H0 & ->).
   pose proof (process_apks_refs_two perm (g_fs g) (nonce_of g) P (g_apks g) (d_pkgs (base_doc g)) (base_doc g) d0
@@ -276,7 +276,7 @@ Proof. unfold targets_fresh_b, TargetsFresh. rewrite targets_fresh_from_iff. cbn
 
 Lemma two_targets_refuted : exists g d,
   (forall k e, In (k, FDoc e) (g_fs g) -> RefsResolve e /\ IdsUnique e /\ Forall ValidId (ids e)) /\
-  AtMostTwoTargets g /\ generate (fun l => l) g = Ok d /\ ~ RefsResolve d.
+  AtMostTwoTargets g /\ generate_u (fun l => l) g = Ok d /\ ~ RefsResolve d.
 Proof.
   exists two_target_witness. eexists. split; [|split; [|split; [vm_compute; reflexivity|]]].
   - apply witness_docs_ok. vm_compute. reflexivity.
@@ -285,7 +285,7 @@ Proof.
 Qed.
 
 (* the other order of the same two targets resolves: the outcome depends on Go's map order *)
-Lemma two_targets_other_order : exists d, generate (@rev string) two_target_witness = Ok d /\ RefsResolve d.
+Lemma two_targets_other_order : exists d, generate_u (@rev string) two_target_witness = Ok d /\ RefsResolve d.
 Proof. eexists. split; [vm_compute; reflexivity | apply refs_resolve_b_iff; vm_compute; reflexivity]. Qed.
 
 (* the three-target witness of SbomProofs is inside TargetsFresh: with three targets freshness does not help *)
